@@ -559,13 +559,21 @@ def family_F(seed: int, count: int, *, min_states=4, max_states=7) -> List[Spec]
     out = []
     base = family_T_random(seed, count, min_states=min_states, max_states=max_states, density=0.7)
     for i, sp in enumerate(base):
+        # a machine whose initial top-level state is final completes in start() and exercises nothing
+        tops = sp.config.get("states", {})
+        if tops.get(sp.config.get("initial"), {}).get("type") == "final":
+            alive = [k for k, v in tops.items() if v.get("type") not in ("final", "history")]
+            if alive:
+                sp.config["initial"] = alive[0]
         init_ids = _initial_path_ids(sp.config)
         dflt = _default_children_ids(sp.config)
         en_default = [a for a in sp.actions if a.startswith("en:") and a[3:] in dflt and a[3:] not in init_ids]
         en_other = [a for a in sp.actions if a.startswith("en:") and a[3:] not in init_ids and a not in en_default]
         ex = [a for a in sp.actions if a.startswith("ex:")]
         tr = [a for a in sp.actions if a.startswith("tr:")]
-        pools = [p for p in (en_default, en_default, en_other, ex, tr) if p]
+        # exit actions of the states active right after start(): the first external transition aborts in its exit phase
+        ex_init = [a for a in ex if a[3:] in init_ids and a[3:] != sp.config["id"]]
+        pools = [p for p in (en_default, en_default, en_other, ex, ex_init, tr) if p]
         sp.missing = sorted({rng.choice(rng.choice(pools)) for _ in range(rng.choice([1, 2]))})
         sp.family = "F"
         sp.label = f"F-{seed}-{i}"
